@@ -136,6 +136,10 @@ package mount
 //@ spec rW3(fs *FS, o string, n string) := worldAfterW("hackpadfs.OpenFile", rW2(fs, o), rOM(fs, n), rOS(fs, n), hackpadfs.FlagWriteOnly|hackpadfs.FlagCreate|hackpadfs.FlagTruncate, rMode(fs, o))
 //@ spec rCopyErr(fs *FS, o string, n string) := retW("io.Copy", 1, rW3(fs, o, n), rDst(fs, o, n), rSrc(fs, o))
 //@ spec rW4(fs *FS, o string, n string) := worldAfterW("io.Copy", rW3(fs, o, n), rDst(fs, o, n), rSrc(fs, o))
+// the destination gets the source's mode also when it existed before (OpenFile's permission argument only applies to a new file)
+//@ spec rMode2(fs *FS, o string, n string) := retW("hackpadfs.(FileInfo).Mode", 0, rW4(fs, o, n), rInfo(fs, o))
+//@ spec rChmodErr(fs *FS, o string, n string) := retW("hackpadfs.Chmod", 0, rW4(fs, o, n), rOM(fs, n), rOS(fs, n), rMode2(fs, o, n))
+//@ spec rW5(fs *FS, o string, n string) := worldAfterW("hackpadfs.Chmod", rW4(fs, o, n), rOM(fs, n), rOS(fs, n), rMode2(fs, o, n))
 
 //@ func (fs *FS) Rename(oldname string, newname string) (err error)
 //@   props C06 C05 C04
@@ -162,8 +166,11 @@ package mount
 //@                      old(rCopyErr(fs, oldname, newname)) != nil, asRenameErr(err, old(rCopyErr(fs, oldname, newname)), oldname, newname))
 //@   ensures "cross-file" [C05 C06] implies(VP(oldname) && VP(newname) && old(rStatErr(fs, oldname)) == nil && oldname != newname && old(rOP(fs, oldname)) != old(rOP(fs, newname)) && !old(rIsDir(fs, oldname)) &&
 //@                      old(rSrcErr(fs, oldname)) == nil && old(rDstErr(fs, oldname, newname)) == nil && implements(old(rDst(fs, oldname, newname)), io.Writer) &&
-//@                      old(rCopyErr(fs, oldname, newname)) == nil,
-//@                      asRenameErr(err, old(retW("hackpadfs.Remove", 0, rW4(fs, oldname, newname), rOM(fs, oldname), rOS(fs, oldname))), oldname, newname))
+//@                      old(rCopyErr(fs, oldname, newname)) == nil && old(rChmodErr(fs, oldname, newname)) == nil,
+//@                      asRenameErr(err, old(retW("hackpadfs.Remove", 0, rW5(fs, oldname, newname), rOM(fs, oldname), rOS(fs, oldname))), oldname, newname))
+//@   ensures "cross-mode-error" [C06 C05] implies(VP(oldname) && VP(newname) && old(rStatErr(fs, oldname)) == nil && oldname != newname && old(rOP(fs, oldname)) != old(rOP(fs, newname)) && !old(rIsDir(fs, oldname)) &&
+//@                      old(rSrcErr(fs, oldname)) == nil && old(rDstErr(fs, oldname, newname)) == nil && implements(old(rDst(fs, oldname, newname)), io.Writer) &&
+//@                      old(rCopyErr(fs, oldname, newname)) == nil && old(rChmodErr(fs, oldname, newname)) != nil, asRenameErr(err, old(rChmodErr(fs, oldname, newname)), oldname, newname))
 //@   nopanic
 
 // MountPoints lists exactly the mount table (the observation point of C06): every mount point once, nothing else.
